@@ -39,9 +39,10 @@ const (
 
 // LockState is the scheduler-level view of a mutex; embedded in the shims.
 type LockState struct {
-	W bool
-	R int32
-	N int32 // WaitGroup counter
+	W     bool
+	R     int32
+	N     int32 // WaitGroup counter
+	Owner int8  // thread holding the write lock + 1 (0 = none)
 }
 
 type PointRec struct {
@@ -174,6 +175,10 @@ func Begin(pfx []int) {
 	prefix = pfx
 	np = 0
 	failure = ""
+	blockedBehindClient = 0
+	for i := range inClient {
+		inClient[i] = false
+	}
 	aborting = false
 	npanics = 0
 }
@@ -184,6 +189,10 @@ type Result struct {
 	Failure string // "", "deadlock", "horizon", "divergence: ..."
 	Panics  []any
 	Threads int
+	// BlockedBehindClient counts the lock acquisitions of T0 (the thread that
+	// handles the client's messages) that found the lock held by a thread which
+	// was inside a call to the client at that moment.
+	BlockedBehindClient int
 }
 
 // End joins all threads (a scheduling point for T0) and returns the trace.
@@ -201,7 +210,7 @@ func End() Result {
 	// reader of the recorded observations. It lies after all server code of this
 	// execution.
 	wg.Wait()
-	res := Result{Failure: failure, Threads: nthreads}
+	res := Result{Failure: failure, Threads: nthreads, BlockedBehindClient: blockedBehindClient}
 	res.Points = make([]PointRec, np)
 	copy(res.Points, trace[:np])
 	for i := 0; i < nthreads; i++ {
@@ -379,6 +388,9 @@ func Acquire(l *LockState, write bool) {
 		return
 	}
 	me := cur
+	if me == 0 && l.W && l.Owner > 0 && inClient[l.Owner-1] {
+		blockedBehindClient++
+	}
 	if write {
 		pendKind[me] = OpLock
 	} else {
@@ -394,8 +406,32 @@ func Acquire(l *LockState, write bool) {
 	pendObj[me] = nil
 	if write {
 		l.W = true
+		l.Owner = int8(me) + 1
 	} else {
 		l.R++
+	}
+}
+
+// inClient marks the threads that are inside a call to the client (between
+// EnterClient and LeaveClient of the client stub).
+var (
+	inClient            [MaxThreads]bool
+	blockedBehindClient int
+)
+
+// EnterClient / LeaveClient bracket a call to the client.
+//
+//go:norace
+func EnterClient() {
+	if on {
+		inClient[cur] = true
+	}
+}
+
+//go:norace
+func LeaveClient() {
+	if on {
+		inClient[cur] = false
 	}
 }
 
@@ -431,6 +467,7 @@ func Release(l *LockState, write bool) {
 	}
 	if write {
 		l.W = false
+		l.Owner = 0
 	} else {
 		l.R--
 	}
